@@ -26,7 +26,7 @@ type c09Case struct {
 }
 
 const c09Rule = "case = well-formed IPFIX or NetFlow v9 message M (generator of C03/C06, templates pre-announced and/or in-message) + 0..3 undecodable sets U inserted at drawn positions: " +
-	"unknown template id with any body (random, zeros, or bytes that look like valid sets), reserved id 4..255 with any body, data for an announced template that names an element missing from the information model; " +
+	"unknown template id with any body (random, zeros, or bytes that look like valid sets), reserved id 4..255 with any body, data for an announced template that names an element missing from the information model (also among its scope fields), data for a template that the message itself announces only later; " +
 	"oracle (a) insertion: records(M+U) == records(M) and a non-empty unknown-template set is reported as an error; " +
 	"(b) truncation, enumerated for EVERY offset 0..len of M and of M+U against an identically prepared cache: records of the prefix (nil message = none) form a prefix of the full decode's records; " +
 	"non-trivial = the message carries >= 1 data record (so some offsets cut inside a record) ; label 'U-between-data-sets' marks the sandwich shape; distinct by hash"
@@ -92,7 +92,54 @@ func genC09(t *rapid.T, env *wire.GenEnv) c09Case {
 	n := rapid.IntRange(0, 3).Draw(t, "nins")
 	for i := 0; i < n; i++ {
 		in := c09Ins{Pos: rapid.IntRange(0, len(c.Sc.Main.Sets)).Draw(t, "pos")}
-		switch rapid.IntRange(0, 2).Draw(t, "inskind") {
+		// data for a template that this very message announces only later: unknown (and skipped) where it
+		// stands, and it must not keep the later data sets of that template from being decoded
+		type late struct {
+			pos int
+			tp  *wire.Template
+		}
+		var lates []late
+		preKnown := map[uint16]bool{}
+		for _, m := range c.Sc.Pre {
+			for _, s := range m.Sets {
+				for _, tp := range s.Tpls {
+					preKnown[tp.ID] = true
+				}
+			}
+		}
+		for si := range c.Sc.Main.Sets {
+			s := &c.Sc.Main.Sets[si]
+			if s.Kind == "tpl" || s.Kind == "opt" {
+				for ti := range s.Tpls {
+					if !preKnown[s.Tpls[ti].ID] {
+						lates = append(lates, late{si, &s.Tpls[ti]})
+					}
+				}
+			}
+		}
+		kind := rapid.IntRange(0, 3).Draw(t, "inskind")
+		if kind == 3 && len(lates) == 0 {
+			kind = 0
+		}
+		switch kind {
+		case 3:
+			l := lates[rapid.IntRange(0, len(lates)-1).Draw(t, "late")]
+			// must stand before the announcing set and before any earlier announcement of the same id in Main
+			first := l.pos
+			for si := 0; si < l.pos; si++ {
+				for _, tp := range c.Sc.Main.Sets[si].Tpls {
+					if tp.ID == l.tp.ID {
+						first = si
+					}
+				}
+				if first != l.pos {
+					break
+				}
+			}
+			in.Pos = rapid.IntRange(0, first).Draw(t, "earlypos")
+			in.Kind = "early-data"
+			tpc := *l.tp
+			in.Set = env.GenDataSet(t, &tpc, 3)
 		case 0:
 			in.Kind = "unknown-template"
 			in.Set = wire.Set{Kind: "raw", RawID: freshID(), RawBody: body()}
